@@ -135,6 +135,7 @@ func runRuntime(prop, tier string) int {
 				rr := rt.Run(b.Bins[v], []string{"conc", fmt.Sprint(seed*3 + int64(bi)), fmt.Sprintf("histories=%d", hist*2), fmt.Sprintf("ops=%d", ops)}, nil, 30*time.Minute)
 				handleRun(run, prop, b, rr, agg, "conc-"+v, shapes, nil)
 			}
+			runDFSMode(run, prop, b, agg, shapes, seed+int64(bi), tier)
 		case "C06":
 			stress := 4
 			if tier == "thorough" {
@@ -142,6 +143,7 @@ func runRuntime(prop, tier string) int {
 			}
 			rr := rt.Run(b.Bins["isync"], []string{"lock", fmt.Sprint(seed + int64(bi)), fmt.Sprintf("stress=%d", stress)}, nil, 30*time.Minute)
 			handleRun(run, prop, b, rr, agg, "lock-isync", shapes, nil)
+			runDFSMode(run, prop, b, agg, shapes, seed+int64(bi), tier)
 			// real sync: a held lock is a genuine deadlock, which the Go runtime reports as a fatal error; restart
 			// after each one, skipping the mock it happened on
 			var skip []string
@@ -319,4 +321,28 @@ func checkHistories(run *evid.Run, agg *rtAgg, tier string) {
 			run.Inconc("porcupine timeout")
 		}
 	})
+}
+
+// runDFSMode enumerates all lock-level schedules of tiny programs on a spread of mocks of the batch.
+func runDFSMode(run *evid.Run, prop string, b *rt.Batch, agg *rtAgg, shapes map[string]rt.MockSpec, seed int64, tier string) {
+	pick, maxexec := 6, 1500
+	if tier == "thorough" {
+		pick, maxexec = 24, 20000
+	}
+	rr := rt.Run(b.Bins["isync"], []string{"dfs", fmt.Sprint(seed), fmt.Sprintf("pick=%d", pick), fmt.Sprintf("maxexec=%d", maxexec)}, nil, 30*time.Minute)
+	handleRun(run, prop, b, rr, agg, "dfs", shapes, nil)
+	exhausted, total := 0, 0
+	for _, l := range rr.Lines {
+		if l["t"] == "dfs" {
+			total++
+			if l["exhaustive"] == true {
+				exhausted++
+			}
+			if total <= 2 {
+				run.Sample(map[string]any{"mode": "dfs", "mock": l["mock"], "program": l["program"], "schedules_enumerated": l["schedules"], "exhaustive": l["exhaustive"]})
+			}
+		}
+	}
+	run.Add("dfs_programs_total", total)
+	run.Add("dfs_programs_fully_enumerated", exhausted)
 }
